@@ -149,7 +149,9 @@ func genSpecial(g *vlib.G) {
 							class, msg = "special-start-value", e
 						}
 					}
-					if msg == "" && r.res != nil && math.IsInf(r.res.F, -1) && r.res.Status != optimize.FunctionNegativeInfinity && c.limF >= 80 && c.limIt == 0 {
+					if msg == "" && r.res != nil && math.IsInf(r.res.F, -1) && r.res.Status != optimize.FunctionNegativeInfinity && c.limF >= 80 && c.limIt == 0 && c.conc <= 1 {
+						// (with Concurrent > 1 another cause may legitimately come first: e.g. ListSearch declares
+						// MethodConverge from one task slot while the -Inf evaluation of another is still in flight)
 						class, msg = "special-value-status", fmt.Sprintf("F = -Inf is reported with status %v", r.res.Status)
 					}
 					if msg != "" {
